@@ -904,6 +904,18 @@ func checkResponses(sc *scenario, seen [][]byte, out []byte, st *blockStore, wai
 					break
 				}
 			}
+			// several (mutated) requests of a stream can share one id: if any of them asks for a number >= 2^63 the
+			// response may be the answer to that one (see below: not decided by C15)
+			beyond := false
+			for _, c := range cands {
+				if c.num != nil && c.num.BitLen() > 63 {
+					beyond = true
+				}
+			}
+			if beyond && (v.num == nil || v.num.BitLen() <= 63) {
+				add("resp/" + g.kind + "/by-number-beyond-int64-answered-with-other-block")
+				continue
+			}
 			by := "hash"
 			if v.num != nil {
 				by = "number"
